@@ -32,36 +32,92 @@ pub fn tmp_dir() -> String {
     d
 }
 
-/// Runs `naija <script file>`; `feed` = pieces written to its stdin (with a flush and an optional
-/// pause in milliseconds after each), None = /dev/null.
+/// How standard input reaches the binary.
+pub enum Feed<'a> {
+    Null,
+    /// a pipe: pieces are written with a flush and an optional pause (ms) after each; the kernel
+    /// may still coalesce them, so what each read(2) returns depends on timing
+    Pipe(&'a [(Vec<u8>, u64)]),
+    /// a SOCK_SEQPACKET socket pair: every read(2) returns exactly one piece, whatever the timing
+    /// (pieces must not exceed the reader's buffer)
+    Packets(&'a [Vec<u8>]),
+}
+
+/// Runs `naija <script file>` with the given stdin.
 pub fn run_naija(src: &str, feed: Option<&[(Vec<u8>, u64)]>) -> Result<NaijaRun, String> {
-    let bin = naija_bin()?;
     let path = format!("{}/script.ns", tmp_dir());
     std::fs::write(&path, src).map_err(|e| format!("write {path}: {e}"))?;
-    let mut cmd = Command::new(&bin);
-    cmd.arg(&path).stdout(Stdio::piped()).stderr(Stdio::piped());
-    cmd.stdin(if feed.is_some() { Stdio::piped() } else { Stdio::null() });
+    run_naija_args(&naija_bin()?, &[&path], match feed {
+        Some(f) => Feed::Pipe(f),
+        None => Feed::Null,
+    })
+}
+
+pub fn run_naija_args(bin: &str, args: &[&str], feed: Feed<'_>) -> Result<NaijaRun, String> {
+    use std::os::fd::{FromRawFd, OwnedFd};
+    let mut cmd = Command::new(bin);
+    cmd.args(args).stdout(Stdio::piped()).stderr(Stdio::piped());
     for (k, _) in std::env::vars() {
         if k.starts_with("VK_") {
             cmd.env_remove(k);
         }
     }
-    let mut child = cmd.spawn().map_err(|e| format!("spawn {bin}: {e}"))?;
-    if let Some(pieces) = feed {
-        let mut stdin = child.stdin.take().unwrap();
-        let pieces = pieces.to_vec();
-        // feed from a thread so that a full pipe cannot deadlock against our reading of stdout
-        std::thread::spawn(move || {
-            for (bytes, pause) in pieces {
-                if stdin.write_all(&bytes).is_err() {
-                    break;
-                }
-                let _ = stdin.flush();
-                if pause > 0 {
-                    std::thread::sleep(std::time::Duration::from_millis(pause));
-                }
+    let mut sender: Option<OwnedFd> = None;
+    match &feed {
+        Feed::Null => {
+            cmd.stdin(Stdio::null());
+        }
+        Feed::Pipe(_) => {
+            cmd.stdin(Stdio::piped());
+        }
+        Feed::Packets(_) => {
+            let mut fds = [0i32; 2];
+            let r = unsafe { libc::socketpair(libc::AF_UNIX, libc::SOCK_SEQPACKET | libc::SOCK_CLOEXEC, 0, fds.as_mut_ptr()) };
+            if r != 0 {
+                return Err(format!("socketpair: {}", std::io::Error::last_os_error()));
             }
-        });
+            let (a, b) = unsafe { (OwnedFd::from_raw_fd(fds[0]), OwnedFd::from_raw_fd(fds[1])) };
+            cmd.stdin(Stdio::from(a));
+            sender = Some(b);
+        }
+    }
+    let mut child = cmd.spawn().map_err(|e| format!("spawn {bin}: {e}"))?;
+    drop(cmd); // closes our copy of the child's end
+    match feed {
+        Feed::Null => {}
+        Feed::Pipe(pieces) => {
+            let mut stdin = child.stdin.take().unwrap();
+            let pieces = pieces.to_vec();
+            // feed from a thread so that a full pipe cannot deadlock against our reading of stdout
+            std::thread::spawn(move || {
+                for (bytes, pause) in pieces {
+                    if stdin.write_all(&bytes).is_err() {
+                        break;
+                    }
+                    let _ = stdin.flush();
+                    if pause > 0 {
+                        std::thread::sleep(std::time::Duration::from_millis(pause));
+                    }
+                }
+            });
+        }
+        Feed::Packets(packets) => {
+            use std::os::fd::AsRawFd;
+            let fd = sender.take().unwrap();
+            let packets = packets.to_vec();
+            std::thread::spawn(move || {
+                for p in packets {
+                    if p.is_empty() {
+                        continue; // a zero-length packet would read as end of input
+                    }
+                    let n = unsafe { libc::send(fd.as_raw_fd(), p.as_ptr().cast(), p.len(), libc::MSG_NOSIGNAL) };
+                    if n < 0 {
+                        break;
+                    }
+                }
+                drop(fd);
+            });
+        }
     }
     let out = child.wait_with_output().map_err(|e| format!("wait: {e}"))?;
     Ok(NaijaRun { stdout: out.stdout, stderr: out.stderr, code: out.status.code().unwrap_or(-1) })
